@@ -787,6 +787,13 @@ class Interp:
                 v = self.class_lookup(o.cls, name)
                 if v is not UNBOUND:
                     if isinstance(v, FuncVal):
+                        decos = [ast.unparse(d) for d in v.node.decorator_list]
+                        if "staticmethod" in decos:
+                            return v                      # no implicit first argument
+                        if "classmethod" in decos:
+                            return BoundMethod(o.cls, v)
+                        if "property" in decos:
+                            return self.call_func(v, [o], {})
                         return BoundMethod(o, v)
                     return v
                 if name == "__class__":
@@ -824,6 +831,8 @@ class Interp:
                 if name == "__name__":
                     return o.name
                 raise PyExc("AttributeError", "type object '%s' has no attribute '%s'" % (o.name, name))
+            if isinstance(v, FuncVal) and "classmethod" in [ast.unparse(d) for d in v.node.decorator_list]:
+                return BoundMethod(o, v)
             return v
         if isinstance(o, EnumMember):
             if name == "value":
